@@ -94,3 +94,84 @@ Example C15_loopback_frame_now_filtered :
   /\ quick_info loopback_v4_frame = analyzer_endpoints loopback_v4_frame
   /\ raw_apply (build only_dst_443) loopback_v4_frame = spec_admits only_dst_443 loopback_v4_frame.
 Proof. destruct loopback_frame_facts as (_ & H2 & H3 & H4 & H5). rewrite H4, H5. auto. Qed.
+
+(* ====================================================================================================
+   CONCRETE INSTANCES.  The inertness hypothesis of C15_commutes is PROVED for the packet-level models of the
+   TLS and TCP analyzers (Model/TlsAnalyzer.v, Model/TcpAnalyzer.v): a frame for which analyzer_endpoints
+   reports nothing (no IP packet, next protocol not TCP, no TCP view) leaves the flow table / tracker unchanged
+   and reports nothing.  "Reports" = Model/AnalyzerReports.v: TLS Ok(Some ..) results; TCP results with at least
+   one of syn / syn_ack / mtu / client_uptime / server_uptime (an Err, Ok(None) and the all-None result are not
+   outputs, the convention of Model/FilterGlue.v).  analyzer_endpoints is RawFrame's decoder, the analyzer
+   models use Model/Pnet.v: Proofs/FrameBridge.v proves the two agree.  Proofs: Proofs/DischargeInstances.v. *)
+From Coq Require Import ZArith.
+From HN Require Import Model.TlsAnalyzer Model.AnalyzerReports Proofs.KeyedExamples Proofs.DischargeInstances Proofs.DischargeExamples.
+From HN Require Model.TcpAnalyzer.
+
+Theorem C15_inert_tls : forall (cap : N) (fl : tls_state) (f : bytes),
+  analyzer_endpoints f = None -> tls_report_step cap fl f = (fl, []).
+Proof. exact tls_inert. Qed.
+Check C15_inert_tls : forall (cap : N) (fl : tls_state) (f : bytes),
+  analyzer_endpoints f = None -> tls_report_step cap fl f = (fl, []).
+Print Assumptions C15_inert_tls.
+
+Theorem C15_inert_tcp : forall (db : list (bytes * list N)) (cap : N) (tr : TcpAnalyzer.tcp_state) (f : bytes) (now : Z),
+  analyzer_endpoints f = None -> tcp_report_step_ev db cap tr (f, now) = (tr, []).
+Proof. exact tcp_inert_event. Qed.
+Check C15_inert_tcp : forall (db : list (bytes * list N)) (cap : N) (tr : TcpAnalyzer.tcp_state) (f : bytes) (now : Z),
+  analyzer_endpoints f = None -> tcp_report_step_ev db cap tr (f, now) = (tr, []).
+Print Assumptions C15_inert_tcp.
+
+(* the concrete TLS analyzer behind the filter = the concrete TLS analyzer on the admitted sub-trace:
+   same final flow table, same reports -- every capacity, every C14 configuration, every trace, every start table *)
+Theorem C15_commutes_tls_concrete : forall (cap : N) (c : cfg_src), cfg_wf c = true ->
+  forall (tau : list bytes) (fl : tls_state),
+    run (with_filter (build c) (tls_report_step cap)) fl tau = run (tls_report_step cap) fl (admitted_subtrace c tau).
+Proof. exact commutes_tls_concrete. Qed.
+Check C15_commutes_tls_concrete : forall (cap : N) (c : cfg_src), cfg_wf c = true ->
+  forall (tau : list bytes) (fl : tls_state),
+    run (with_filter (build c) (tls_report_step cap)) fl tau = run (tls_report_step cap) fl (admitted_subtrace c tau).
+Print Assumptions C15_commutes_tls_concrete.
+
+(* TCP: the arrival time belongs to the packet, so the trace is a list of events (frame, clock reading);
+   run_ev / with_filter_ev are run / with_filter over events (the filter looks at the frame) *)
+Theorem C15_commutes_tcp_concrete : forall (db : list (bytes * list N)) (cap : N) (c : cfg_src), cfg_wf c = true ->
+  forall (tau : list TcpAnalyzer.tcp_event) (tr : TcpAnalyzer.tcp_state),
+    run_ev TcpAnalyzer.tcp_event TcpAnalyzer.tcp_state TcpAnalyzer.tcp_result
+           (with_filter_ev TcpAnalyzer.tcp_event TcpAnalyzer.tcp_state TcpAnalyzer.tcp_result fst (tcp_report_step_ev db cap) (build c)) tr tau
+    = run_ev TcpAnalyzer.tcp_event TcpAnalyzer.tcp_state TcpAnalyzer.tcp_result (tcp_report_step_ev db cap) tr
+             (filter (fun e => spec_admits c (fst e)) tau).
+Proof. exact commutes_tcp_concrete. Qed.
+Check C15_commutes_tcp_concrete : forall (db : list (bytes * list N)) (cap : N) (c : cfg_src), cfg_wf c = true ->
+  forall (tau : list TcpAnalyzer.tcp_event) (tr : TcpAnalyzer.tcp_state),
+    run_ev TcpAnalyzer.tcp_event TcpAnalyzer.tcp_state TcpAnalyzer.tcp_result
+           (with_filter_ev TcpAnalyzer.tcp_event TcpAnalyzer.tcp_state TcpAnalyzer.tcp_result fst (tcp_report_step_ev db cap) (build c)) tr tau
+    = run_ev TcpAnalyzer.tcp_event TcpAnalyzer.tcp_state TcpAnalyzer.tcp_result (tcp_report_step_ev db cap) tr
+             (filter (fun e => spec_admits c (fst e)) tau).
+Print Assumptions C15_commutes_tcp_concrete.
+
+(* the literal instance of C15_commutes (steps over frames), with the clock reading a function of the frame *)
+Theorem C15_commutes_tcp_concrete_frames :
+  forall (db : list (bytes * list N)) (cap : N) (clock : bytes -> Z) (c : cfg_src), cfg_wf c = true ->
+  forall (tau : list bytes) (tr : TcpAnalyzer.tcp_state),
+    run (with_filter (build c) (tcp_report_step db cap clock)) tr tau
+    = run (tcp_report_step db cap clock) tr (admitted_subtrace c tau).
+Proof. exact commutes_tcp_concrete_frames. Qed.
+Print Assumptions C15_commutes_tcp_concrete_frames.
+
+(* satisfiable and non-trivial: a port-443-only filter; flow A (port 443, ClientHello in two segments) around a
+   ClientHello to port 8443 and a frame without endpoints: unfiltered two reports, filtered one *)
+Example C15_tls_concrete_example :
+  cfg_wf only_dst_443 = true /\ analyzer_endpoints junk = None /\
+  admitted_subtrace only_dst_443 c15_trace = [tlsA1; tlsA2] /\
+  map is_report (snd (run (tls_report_step 8) [] c15_trace)) = [true; true] /\
+  map is_report (snd (run (with_filter (build only_dst_443) (tls_report_step 8)) [] c15_trace)) = [true].
+Proof. exact c15_tls_example. Qed.
+Example C15_tcp_concrete_example :
+  cfg_wf only_dst_80 = true /\
+  filter (fun e => spec_admits only_dst_80 (fst e)) c15_tcp_trace = [tcpA1; tcpA2] /\
+  map up_freq (snd (run_ev TcpAnalyzer.tcp_event TcpAnalyzer.tcp_state TcpAnalyzer.tcp_result
+                      (with_filter_ev TcpAnalyzer.tcp_event TcpAnalyzer.tcp_state TcpAnalyzer.tcp_result fst
+                         (tcp_report_step_ev [] 8) (build only_dst_80)) [] c15_tcp_trace))
+  = [None; Some 1000%Z] /\
+  length (snd (run_ev TcpAnalyzer.tcp_event TcpAnalyzer.tcp_state TcpAnalyzer.tcp_result (tcp_report_step_ev [] 8) [] c15_tcp_trace)) = 4%nat.
+Proof. exact c15_tcp_example. Qed.
